@@ -200,14 +200,14 @@ func (r *Rec) PrivkeyHex() string { return hex.EncodeToString(r.Data.PrivkeyByte
 // installed first so that other monitors can query it.
 
 type SwapInfo struct {
-	Node      int
-	ID        string
-	Rec       *Rec   // latest successfully persisted record
-	Raw       []byte // its bytes
-	States    []string
-	FirstSeen time.Duration
+	Node       int
+	ID         string
+	Rec        *Rec   // latest successfully persisted record
+	Raw        []byte // its bytes
+	States     []string
+	FirstSeen  time.Duration
 	TerminalAt time.Duration
-	PeerNode  int
+	PeerNode   int
 }
 
 type Tracker struct {
